@@ -100,11 +100,32 @@ func main() {
 	if devnull, err := os.OpenFile(os.DevNull, os.O_WRONLY, 0); err == nil {
 		_ = syscall.Dup2(int(devnull.Fd()), 1)
 	}
+	p0 := p
 	runFn := p.Run
 	if sim.RaceEnabled && p.HBRun != nil {
 		runFn = p.HBRun
 	}
 	opts := props.Opts{HB: sim.RaceEnabled}
+	{
+		// a panic that escapes a run on the caller's goroutine (sequential engines) is a violation of "never panics" when
+		// it comes out of fox, harness trouble otherwise
+		inner := runFn
+		runFn = func(src sim.Source, o props.Opts) (res *props.Result) {
+			defer func() {
+				if p := recover(); p != nil {
+					stack := string(debug.Stack())
+					res = &props.Result{Stats: map[string]int{}, Case: map[string]any{"panic": fmt.Sprint(p)}, Stack: stack}
+					if strings.Contains(stack, "github.com/tigerwill90/fox.") {
+						res.Class = p0.ID + "/panic"
+						res.Detail = fmt.Sprintf("panic inside fox: %v", p)
+					} else {
+						res.Trouble = fmt.Sprintf("panic in harness code: %v\n%s", p, stack)
+					}
+				}
+			}()
+			return inner(src, o)
+		}
+	}
 
 	if *replay != "" {
 		os.Exit(doReplay(p, runFn, opts, *replay))
